@@ -26,6 +26,7 @@ import (
 	"verifharness/gen/jsgen"
 	"verifharness/gen/jsongen"
 	"verifharness/gen/seeds"
+	"verifharness/gen/xmlgen"
 	"verifharness/hx"
 	"verifharness/mk"
 	"verifharness/oracle/cssval"
@@ -43,9 +44,16 @@ type Case struct {
 	Src   string     `json:"src"`
 	Level int        `json:"level,omitempty"` // ECMAScript edition the JS input is restricted to
 	Opts  mk.Options `json:"opts"`
+	// cli, kind html: the file type given to --type when it is one of the HTML template types (php asp ejs tmpl gohtml
+	// mustache handlebars); the library side then is the HTML minifier with that type's template delimiters
+	CLIType string   `json:"cli_type,omitempty"`
+	XML     *XMLCase `json:"xml,omitempty"`
 }
 
-const rule = "cases = (generated input, option configuration): JS programs restricted to an ECMAScript edition L x Version V >= L (0 excluded) x KeepVarNames; conforming HTML documents x the full product of the eight Keep* options; stylesheets x KeepCSS2 x precision; JSON texts x precision 0..17; and for the CLI every flag combination mapped onto the option structs; oracle = kept-construct laws checked on an independent tokenization of input and output (own JS lexer + V8 syntax check, x/net/html tokenizer, own CSS tokenizer, own JSON lexer with exact decimals) and byte equality between the built command line binary and the library under the same options; the semantic oracles of C01..C07 draw the same option space themselves; distinct by hash; non-trivial = non-default configuration whose output differs from the default-configuration output"
+var templateTypes = map[string][2]string{"php": {"<?", "?>"}, "asp": {"<%", "%>"}, "ejs": {"<%", "%>"}, "tmpl": {"{{", "}}"}, "gohtml": {"{{", "}}"}, "mustache": {"{{", "}}"}, "handlebars": {"{{", "}}"}}
+var templateTypeNames = []string{"php", "asp", "ejs", "tmpl", "gohtml", "mustache", "handlebars"}
+
+const rule = "cases = (generated input, option configuration): JS programs restricted to an ECMAScript edition L x Version V >= L (0 excluded) x KeepVarNames; conforming HTML documents x the full product of the eight Keep* options; stylesheets x KeepCSS2 x precision; JSON texts x precision 0..17; well-formed XML documents x KeepWhitespace (the character data between the tags of the root element, read by encoding/xml, is the same once whitespace runs are collapsed); and for the CLI every flag combination mapped onto the option structs, for HTML also under the seven template file types (php asp ejs tmpl gohtml mustache handlebars) against the library with that type's delimiters; oracle = kept-construct laws checked on an independent tokenization of input and output (own JS lexer + V8 syntax check, x/net/html tokenizer, own CSS tokenizer, own JSON lexer with exact decimals) and byte equality between the built command line binary and the library under the same options; the semantic oracles of C01..C07 draw the same option space themselves; distinct by hash; non-trivial = non-default configuration whose output differs from the default-configuration output"
 
 func guards() map[string]bool {
 	g := map[string]bool{}
@@ -548,7 +556,7 @@ func checkCLI(c Case) (out string, err error) {
 	}
 	// the command line tool has no flag for these
 	o := c.Opts
-	o.HTMLTemplateDelims = [2]string{}
+	o.HTMLTemplateDelims = templateTypes[c.CLIType] // zero for plain html
 	o.CSSKeepCSS2 = false
 	o.CSSInline, o.SVGInline = false, false
 	lib, lerr := minifyKind(c.Kind, o, c.Src)
@@ -561,7 +569,11 @@ func checkCLI(c Case) (out string, err error) {
 	if e := os.WriteFile(in, []byte(c.Src), 0o644); e != nil {
 		return "", fmt.Errorf("HARNESS: %v", e)
 	}
-	cmd := exec.Command(cli, append(cliArgs(c.Kind, o), in)...)
+	args := cliArgs(c.Kind, o)
+	if c.CLIType != "" {
+		args[1] = c.CLIType
+	}
+	cmd := exec.Command(cli, append(args, in)...)
 	var so, se bytes.Buffer
 	cmd.Stdout, cmd.Stderr = &so, &se
 	cmd.Env = append(os.Environ(), "HOME="+dir, "XDG_CONFIG_HOME="+dir)
@@ -569,15 +581,15 @@ func checkCLI(c Case) (out string, err error) {
 	rerr := cmd.Run()
 	if lerr != nil {
 		if rerr == nil {
-			return lib, fmt.Errorf("the library rejects the input (%v), the command line tool accepts it\n--- args: %v\n--- input:\n%s", lerr, cliArgs(c.Kind, o), c.Src)
+			return lib, fmt.Errorf("the library rejects the input (%v), the command line tool accepts it\n--- args: %v\n--- input:\n%s", lerr, args, c.Src)
 		}
 		return lib, nil
 	}
 	if rerr != nil {
-		return lib, fmt.Errorf("the command line tool fails (%v: %s), the library accepts the input\n--- args: %v\n--- input:\n%s", rerr, se.String(), cliArgs(c.Kind, o), c.Src)
+		return lib, fmt.Errorf("the command line tool fails (%v: %s), the library accepts the input\n--- args: %v\n--- input:\n%s", rerr, se.String(), args, c.Src)
 	}
 	if so.String() != lib {
-		return lib, fmt.Errorf("the command line tool with %v gives other bytes than the library with the same options\n--- input:\n%s\n--- library:\n%s\n--- command line:\n%s", cliArgs(c.Kind, o), c.Src, lib, so.String())
+		return lib, fmt.Errorf("the command line tool with %v gives other bytes than the library with the same options\n--- input:\n%s\n--- library:\n%s\n--- command line:\n%s", args, c.Src, lib, so.String())
 	}
 	return lib, nil
 }
@@ -596,12 +608,14 @@ func check(c Case) (string, error) {
 		return checkJSONPrecision(c)
 	case "cli":
 		return checkCLI(c)
+	case "xml-keepws":
+		return checkXMLKeepWS(c)
 	}
 	return "", fmt.Errorf("HARNESS: unknown check %q", c.Check)
 }
 
 func genCase(t *rapid.T, g0 map[string]bool) Case {
-	which := rapid.SampledFrom([]string{"js-version", "js-version", "html-keep", "html-keep", "css-keepcss2", "json-precision", "cli"}).Draw(t, "check")
+	which := rapid.SampledFrom([]string{"js-version", "js-version", "html-keep", "html-keep", "css-keepcss2", "json-precision", "cli", "xml-keepws"}).Draw(t, "check")
 	c := Case{Check: which}
 	switch which {
 	case "js-version":
@@ -635,6 +649,14 @@ func genCase(t *rapid.T, g0 map[string]bool) Case {
 		c.Opts.JSONPrecision = rapid.IntRange(0, 17).Draw(t, "prec")
 		c.Opts.JSONKeepNumbers = rapid.IntRange(0, 5).Draw(t, "keepnumbers") == 0
 		c.Src = jsongen.Text(t, 20)
+	case "xml-keepws":
+		c.Kind = "xml"
+		c.Opts.XMLKeepWhitespace = rapid.IntRange(0, 3).Draw(t, "xmlkeepws") != 0
+		d := xmlgen.Gen(t)
+		c.Src = strings.ReplaceAll(d.Src, "]]>]]>", "]]>")
+		if len(d.Entities) > 0 {
+			c.XML = &XMLCase{Entities: d.Entities}
+		}
 	case "cli":
 		c.Kind = rapid.SampledFrom(seeds.Kinds).Draw(t, "kind")
 		c.Opts = mk.GenOptions(t, false)
@@ -648,9 +670,19 @@ func genCase(t *rapid.T, g0 map[string]bool) Case {
 		if len(c.Src) > 16<<10 {
 			c.Src = c.Src[:16<<10]
 		}
+		if c.Kind == "html" && rapid.IntRange(0, 2).Draw(t, "templatetype") == 0 {
+			// the HTML template types of the command line tool take the same --html-* flags
+			c.CLIType = rapid.SampledFrom(templateTypeNames).Draw(t, "clitype")
+			d := templateTypes[c.CLIType]
+			if loc := reTextEnd.FindStringIndex(c.Src); loc != nil && rapid.Bool().Draw(t, "tmplcode") {
+				c.Src = c.Src[:loc[0]] + " " + d[0] + " echo  $x " + d[1] + " " + c.Src[loc[0]:]
+			}
+		}
 	}
 	return c
 }
+
+var reTextEnd = regexp.MustCompile(`(?i)</(p|div|li|b|i|span|td|h1|em|a)>`)
 
 func isDefault(o mk.Options) bool {
 	b, _ := json.Marshal(o)
@@ -680,7 +712,11 @@ func TestCampaignGenerated(t *testing.T) {
 				nt = true
 			}
 		}
-		hx.C.Case(hx.Hash(string(b)), nt, "check:"+c.Check, "kind:"+c.Kind)
+		cls := []string{"check:" + c.Check, "kind:" + c.Kind}
+		if c.CLIType != "" {
+			cls = append(cls, "cli-template-type:"+c.CLIType)
+		}
+		hx.C.Case(hx.Hash(string(b)), nt, cls...)
 		if nt && len(c.Src) < 300 {
 			hx.C.Sample(len(c.Src), c)
 		}
